@@ -188,7 +188,7 @@ Proof.
 Qed.
 
 Lemma write_size_pos : (1 <= N.to_nat WRITE_SIZE)%nat.
-Proof. vm_compute. lia. Qed.
+Proof. apply Nat.leb_le. vm_compute. reflexivity. Qed.
 
 Lemma test_nonzero x m : test x m = true -> x <> 0%N.
 Proof. unfold test. intros H ->. rewrite N.land_0_l in H. discriminate. Qed.
